@@ -388,22 +388,34 @@ def translate_expression(expr, env: Env) -> TExp:  # noqa: C901
             if len(args) != len(def_f[1]):
                 raise TypeErrorException(args, def_f[1])
 
+            def _flat(v):
+                if isinstance(v, list):
+                    return [b for x in v for b in _flat(x)]
+                return [v]
+
+            # Substitute positionally every bit of a formal argument with the
+            # corresponding bit of the actual one
             subs = {}
             for a, fa in zip(args, def_f[1]):
-                if isinstance(a[1], List):
-                    for i in range(len(a[1])):  # type: ignore
-                        index = ".".join(a[1][i].name.split(".")[1:])  # type: ignore
-                        if index == "":
-                            index = f"{i}"
+                if (
+                    hasattr(a[0], "BIT_SIZE")
+                    and hasattr(fa.ttype, "BIT_SIZE")
+                    and a[0].__name__[:4] == "Qint"
+                    and fa.ttype.__name__[:4] == "Qint"
+                    and a[0].BIT_SIZE < fa.ttype.BIT_SIZE
+                ):
+                    a = fa.ttype.fill(a)
 
-                        subs[f"{fa.name}.{index}"] = a[1][i]  # type: ignore
+                a_bits = _flat(a[1])
+                if len(a_bits) != len(fa.bitvec):
+                    raise TypeErrorException(a[0], fa.ttype)
 
-                else:
-                    subs[fa.name] = a[1]
+                for fb, ab in zip(fa.bitvec, a_bits):
+                    subs[Symbol(fb)] = ab
 
             n_exps = []
             for s, e in def_f[3]:
-                n_exps.append((s, e.subs(subs, simultaneus=True)))
+                n_exps.append((s, e.xreplace(subs)))
 
             _ret = list(map(lambda se: se[1], n_exps))
 
